@@ -938,6 +938,11 @@ func DeleteHistoricVersions(ctx context.Context, s *DB, before time.Time) error 
 		if err != nil {
 			return fmt.Errorf("delete node: %s: %w", l, err)
 		}
+		// The node cache also tells a commit which nodes need no storing
+		// again, so a node deleted from the bucket must leave the cache too.
+		if c, ok := s.cfg.NodeCache.(interface{ Remove(key interface{}) }); ok {
+			c.Remove(fmt.Sprintf("%s/%s", s.persist.NodeURLPrefix(), l))
+		}
 	}
 	for _, l := range roots {
 		_, err := s.s3Client.DeleteObjectWithContext(ctx, &s3.DeleteObjectInput{
